@@ -11,7 +11,7 @@
    The model is tied to the code by the harness cmd/lifecycle: schedules of the real code on simulated descriptors under
    the cooperative scheduler are replayed through [run]/[trace] and compared event by event, and the logs of real engines
    are run through the extracted checker [legal]/[complete] (c03_model_logs_are_legal: no model behaviour is rejected). *)
-Require Import Lifecycle LifeProofs LifeObs.
+Require Import Lifecycle LifeProofs LifeObs UdpSessions UdpProofs.
 From Coq Require Import List Bool Arith Lia.
 Import ListNotations.
 
@@ -176,6 +176,87 @@ Theorem c03_close_can_precede_success_callback :
   = [EDialStart; ECloseRet; EClose None; EDial None].
 Proof. reflexivity. Qed.
 
+(* ---- UDP peer sessions (UdpSessions.v: the listener's table remote address -> session on top of the per-connection model) ---- *)
+
+(* every session is a connection: after any history of datagrams, session actions and the listener's close, session sid is
+   in the state - and has produced exactly the events - of the per-connection run  AAdd false :: l  where l are the life-cycle
+   actions that were applied to it; hence every theorem above holds for every session *)
+Theorem c03_udp_session_is_connection acts sid :
+  (exists x l, nth_error (ss (urun uinit acts)) sid = Some x /\ sst x = run init (AAdd false :: l)
+               /\ evs_of sid (utrace uinit acts) = trace init (AAdd false :: l))
+  \/ (nth_error (ss (urun uinit acts)) sid = None /\ evs_of sid (utrace uinit acts) = []).
+Proof. exact (session_run acts sid). Qed.
+
+Theorem c03_udp_at_most_once acts sid : length (closes_of (evs_of sid (utrace uinit acts))) <= 1.
+Proof.
+  destruct (session_run acts sid) as [(x & l & _ & _ & ->)|[_ ->]]; [|cbn; lia]. apply c03_at_most_once.
+Qed.
+
+Theorem c03_udp_open_before_close acts sid pre e post :
+  evs_of sid (utrace uinit acts) = pre ++ EClose e :: post -> In EOpen pre.
+Proof.
+  destruct (session_run acts sid) as [(x & l & _ & _ & ->)|[_ ->]]; [|destruct pre; discriminate].
+  cbn [trace]. change (snd (step init (AAdd false))) with [EOpen]. cbn [app]. intros H.
+  destruct pre as [|p pre]; cbn in H; inversion H; subst. left; reflexivity.
+Qed.
+
+Theorem c03_udp_first_cause acts sid e :
+  In e (closes_of (evs_of sid (utrace uinit acts))) ->
+  exists l pre a post, evs_of sid (utrace uinit acts) = trace init (AAdd false :: l) /\ AAdd false :: l = pre ++ a :: post
+    /\ closed (run init pre) = false /\ cause (run init pre) a = Some e /\ closed (run init (pre ++ [a])) = true.
+Proof.
+  destruct (session_run acts sid) as [(x & l & _ & _ & E)|[_ E]]; rewrite E; [|intros []].
+  intros H. destruct (c03_first_cause _ _ H) as (pre & a & post & E1 & E2 & E3 & E4). exists l, pre, a, post. auto.
+Qed.
+
+(* a datagram is delivered only to a session that has had its open notification *)
+Theorem c03_udp_data_after_open acts pre sid post :
+  utrace uinit acts = pre ++ UData sid :: post -> In (UEv sid EOpen) pre.
+Proof.
+  intros E. destruct (urun_DInv acts uinit [] uinit_UInv) as [Hk _]; [split; [reflexivity|cbn; intros; lia]|]. cbn [app] in Hk.
+  destruct (okd_split _ _ _ _ _ Hk E) as [[]|H]; exact H.
+Qed.
+
+(* same address -> same session: the listener's table maps an address exactly to THE session of that address whose teardown
+   has not run; there is never a second one, so a datagram from a known address goes to that session without a new open
+   notification, and a new session for the address exists only after the previous one has been released *)
+Theorem c03_udp_one_session_per_address acts k :
+  let u := urun uinit acts in
+  (forall sid, lookup k (tbl u) = Some sid <-> exists x, nth_error (ss u) sid = Some x /\ skey x = k /\ fdcl (sst x) = 0)
+  /\ (forall s1 s2 x1 x2, nth_error (ss u) s1 = Some x1 -> nth_error (ss u) s2 = Some x2 -> skey x1 = k -> skey x2 = k ->
+       fdcl (sst x1) = 0 -> fdcl (sst x2) = 0 -> s1 = s2).
+Proof.
+  intros u. pose proof (urun_UInv acts uinit uinit_UInv) as HU. fold u in HU. split.
+  - intros sid. apply table_characterisation, HU.
+  - intros s1 s2 x1 x2 E1 E2 K1 K2 F1 F2.
+    assert (H1 : lookup k (tbl u) = Some s1) by (apply table_characterisation; auto; exists x1; auto).
+    assert (H2 : lookup k (tbl u) = Some s2) by (apply table_characterisation; auto; exists x2; auto).
+    congruence.
+Qed.
+
+Theorem c03_udp_datagram_routing acts k :
+  let u := urun uinit acts in srv u = false ->
+  match lookup k (tbl u) with
+  | Some sid => ustep u (UDatagram k) = (u, [UData sid])
+  | None => snd (ustep u (UDatagram k)) = [UEv (length (ss u)) EOpen; UData (length (ss u))]
+  end.
+Proof. intros u Hs. cbn [ustep]. rewrite Hs. destruct (lookup k (tbl u)); reflexivity. Qed.
+
+(* PARTIAL.  Proved: once the listener is closed no session is created and no datagram delivered.  Not proved (full statement):
+   the listener's teardown (udpConn.Close: `for _, c := range u.conns { c.Close() }`) closes every session of the table, so that
+   at quiescence each of them has had exactly one close notification with a nil error unless another cause came first; the
+   model represents those closes as ordinary USess _ (ACloseLock _ None false) actions of the schedule and does not force them. *)
+Theorem c03_udp_listener_close_partial acts k :
+  let u := urun uinit acts in srv u = true -> ustep u (UDatagram k) = (u, []).
+Proof. intros u Hs. cbn [ustep]. rewrite Hs. reflexivity. Qed.
+
+(* non-vacuity: remote 7 sends twice (one session), remote 9 once, session 0 is closed and released, remote 7 sends again *)
+Example c03_udp_example :
+  utrace uinit [UDatagram 7; UDatagram 7; UDatagram 9; USess 0 (ACloseLock 1 (Some 5) true); UDatagram 7; USess 0 (ATeardown 1);
+                USess 0 ARunJob; UDatagram 7]
+  = [UEv 0 EOpen; UData 0; UData 0; UEv 1 EOpen; UData 1; UData 0; UEv 0 ECloseRet; UEv 0 (EClose (Some 5)); UEv 2 EOpen; UData 2].
+Proof. vm_compute. reflexivity. Qed.
+
 (* ---- the checker rejects what the property forbids ---- *)
 Example c03_checker_rejects :
   legal [EOpen; EClose None; EClose None] = false /\               (* notified twice *)
@@ -213,3 +294,11 @@ Print Assumptions c03_model_logs_are_legal.
 Print Assumptions c03_model_logs_complete.
 Print Assumptions c03_rejected_dial_reported_once.
 Print Assumptions c03_close_can_precede_success_callback.
+Print Assumptions c03_udp_session_is_connection.
+Print Assumptions c03_udp_at_most_once.
+Print Assumptions c03_udp_open_before_close.
+Print Assumptions c03_udp_first_cause.
+Print Assumptions c03_udp_data_after_open.
+Print Assumptions c03_udp_one_session_per_address.
+Print Assumptions c03_udp_datagram_routing.
+Print Assumptions c03_udp_listener_close_partial.
